@@ -301,7 +301,7 @@ def consumer_loops(R, ctx):
     if not ctx.has('async'):
         return
     for spawner, need_shutdown in (('writers::file_log_writer::state::start_async_fs_writer', True), ('threads::start_async_stdwriter', False)):
-        clo = [x for x in f.fn_bodies() if x.kind == 'Closure' and x.path.startswith(spawner + '::') and x.path.count('{closure') == 1]
+        clo = [f.bodies[e] for e in spawned_entries(cg, spawner) if e in f.bodies and cg.reaches_effect(e, lambda n_, t_: n_.endswith('Receiver::<T>::recv'), spawn=False)]
         if len(clo) != 1:
             R.bad('R04.4', f"{spawner}|consumer", f"consumer closure of {spawner} not found ({len(clo)})", where=None)
             continue
@@ -339,10 +339,13 @@ def consumer_loops(R, ctx):
         R.check('R04.4', f"{spawner}|consumer-exits", not bad and kinds >= {'disconnect', 'shutdown'}, f"{len(rows)} complete rows: the loop ends on disconnect or SHUTDOWN"
                 + (" after State::shutdown" if need_shutdown else ''), f"{spawner}: {bad or 'an exit kind is missing: ' + str(kinds)}", where=x.loc())
         # arms: for a message equal to FLUSH the flush effect follows; otherwise write
-        recvs = [bb for bb, t in x.calls() if callee_name(t).endswith('Receiver::<T>::recv')]
-        flushes = [bb for bb, t in x.calls() if re.search(r'State::flush$|::flush$', callee_name(t))]
-        writes = [bb for bb, t in x.calls() if re.search(r'State::write_buffer$|::write_all$', callee_name(t))]
-        ok = len(recvs) == 1 and flushes and writes and all(C.path_exists(x, bb, recvs[0]) for bb in flushes + writes)
+        # (in the body that holds the loop: the spawned closure itself or the named function it runs)
+        lbs = [f.bodies[q] for q in cg.reachable([x.path], spawn=False) if q in f.bodies and any(callee_name(t).endswith('Receiver::<T>::recv') for _, t in f.bodies[q].calls())]
+        lb = lbs[0] if len(lbs) == 1 else x
+        recvs = [bb for bb, t in lb.calls() if callee_name(t).endswith('Receiver::<T>::recv')]
+        flushes = [bb for bb, t in lb.calls() if re.search(r'State::flush$|::flush$', callee_name(t))]
+        writes = [bb for bb, t in lb.calls() if re.search(r'State::write_buffer$|::write_all$', callee_name(t))]
+        ok = len(recvs) == 1 and flushes and writes and all(C.path_exists(lb, bb, recvs[0]) for bb in flushes + writes)
         R.check('R04.4', f"{spawner}|arms", bool(ok), "FLUSH arm flushes, data arm writes, both return to recv", f"{spawner}: a message arm is missing or does not return to the loop", where=x.loc())
 
 
